@@ -98,7 +98,7 @@ impl<F: Float> ParamGuard for PlsParams<F> {
     type Error = PlsError;
 
     fn check_ref(&self) -> Result<&Self::Checked, Self::Error> {
-        if self.0.tolerance.is_negative()
+        if self.0.tolerance < F::zero()
             || self.0.tolerance.is_nan()
             || self.0.tolerance.is_infinite()
         {
@@ -157,7 +157,7 @@ macro_rules! pls_algo { ($name:ident) => {
             type Error = PlsError;
 
             fn check_ref(&self) -> Result<&Self::Checked, Self::Error> {
-                if self.0.0.tolerance.is_negative() || self.0.0.tolerance.is_nan() || self.0.0.tolerance.is_infinite() {
+                if self.0.0.tolerance < F::zero() || self.0.0.tolerance.is_nan() || self.0.0.tolerance.is_infinite() {
                     Err(PlsError::InvalidTolerance(self.0.0.tolerance.to_f32().unwrap()))
                 } else if self.0.0.max_iter == 0 {
                     Err(PlsError::ZeroMaxIter)
